@@ -111,6 +111,7 @@ def k7scen (t : Tokens) : String :=
   | "clunk-races-inflight-read" => "clunked=1 closed_early=0 closed_after=1 uac=0"
   | "cut-with-request-in-backend" => "returned_early=0 closed_early=0 returned=1 leaks= dbl= uac="
   | "panic-in-unlinkat-keeps-serving" => "efault=1 child=1 again=1"
+  | "panic-in-renamed-of-the-moved-entry-keeps-serving" => "efault=1 walked=1"
   | "panic-in-renamed-of-a-descendant-keeps-serving" => "efault=1 walked=1 again=1 leaks= dbl= uac="
   | "rread-keeps-its-data-while-waiting-to-be-written" => "clean=1"
   | "simultaneous-first-walks-share-one-path-node" => "overlap=0"
